@@ -3,16 +3,16 @@ CONSTANTS
   Cons = {"s1", "s2"}
   Healthy = {}
   Other = {}
-  N = 3
+  N = 2
   HCap = 64
   Parts = 1
-  ElemParts = 1
-  WsMode = TRUE
+  ElemParts = 2
+  WsMode = FALSE
   EnqAcct = FALSE
   HasDeadline = TRUE
   Prime = FALSE
-  MaxPub = 4
-  MaxRead = 2
+  MaxPub = 3
+  MaxRead = 3
   MaxStall = 2
   MaxSweep = 2
   MaxLeave = 0
